@@ -91,10 +91,40 @@ def phase_a(rep, tier, seed):
                                  "digests_compared": n_cmp, "probes_refused": refused}
 
 
-def _hist_case(seed, i, nprobes):
+def _variant(sc, rng):
+    """The probe's configuration with a different option set but the same grid size - what
+    a user produces when adjusting settings and writing to the same file name again."""
+    import copy
+
+    v = copy.deepcopy(sc)
+    o = v["options"]
+    if v["family"] == "circ":
+        if o.get("orthogonal", True):
+            o.update({"orthogonal": False, "nonorthogonal_xpoint_poloidal_spacing_length": 1.0,
+                      "nonorthogonal_spacing_method": "poloidal_orthogonal_combined",
+                      "nonorthogonal_xpoint_poloidal_spacing_range": 0.05})
+            o.pop("curvature_type", None)
+        else:
+            for k in [k for k in o if k.startswith("nonorthogonal_")]:
+                o.pop(k)
+            o["orthogonal"] = True
+    else:
+        o["curvature_type"] = "curl(b/B) with x-y derivatives"
+        if rng.random() < 0.5:
+            v["pressure_off"] = True
+    return v
+
+
+def _hist_case(seed, i, nprobes, probes=None):
     s = core.run_seed(seed, "c14-history", i)
     rng = core.stream(s, "ops")
-    return {"ops": histsim.history_ops(rng, s), "probe_index": rng.randrange(nprobes)}
+    case = {"ops": histsim.history_ops(rng, s), "probe_index": rng.randrange(nprobes)}
+    if probes is not None and i % 4 == 3:
+        # stratum: an earlier generation with other options wrote to the very file the
+        # probe is going to write (same name, same size)
+        case["ops"].append({"op": "grid", "upto": "write", "to_probe_path": True,
+                            "scenario": _variant(probes[case["probe_index"]], rng)})
+    return case
 
 
 def _hist_job(arg):
@@ -104,7 +134,7 @@ def _hist_job(arg):
 
 def phase_b(rep, tier, seed, probes, envs, fresh):
     sz = SIZES[tier]
-    cases = [_hist_case(seed, i, len(probes)) for i in range(sz["histories"])]
+    cases = [_hist_case(seed, i, len(probes), probes) for i in range(sz["histories"])]
     res = batch.map_chunks(
         _hist_job, [(c["ops"], probes[c["probe_index"]], envs[0]) for c in cases],
         limit_s=1200)
